@@ -58,6 +58,7 @@ package cache
 
 //@ func (*Target).gnmiUpdate
 //@   props C02 C03 C12 C14 C15 C01
+//@   locks t
 //@   requires TargetWf(t) && NotiWf(n) && len(n.Update) >= 1 && n.Prefix != nil && n.Prefix.Target != "" && StoredWf(t) && CountersRegistered() && AllTVWf()
 //@   modifies ghost tstore, ghost treal, ghost intAdded, heap(ctree.Tree.leafBranch), t.sync
 //@   effect owed := ite(res0 != nil, owed ++ unit(res0), owed)
@@ -166,7 +167,8 @@ package cache
 
 // tsSeen[t]: greatest instant this thread has passed to checkTimestamp for t.
 //@ ghost tsSeen gmap[ref]int
-//@ monitor Target.tsmu protects ts
+// ts and sync are only touched under tsmu (the refresh goroutine and the update stream share them).
+//@ monitor Target.tsmu protects ts, sync
 
 // The submitted message object is not one that a tree (or a detached leaf) already holds:
 // GnmiUpdate temporarily clears n.Update/n.Delete, which must not be visible through the cache.
